@@ -88,6 +88,9 @@ var c07Attacks = []C07Plan{
 	{Attack: "clock-midsession", Clock: 1},
 	// a later registration replaces the earlier one, lifetime included:
 	// shorter (Clock>0: asked after the new, before the old expiry) and longer
+	// the rendezvous server's policy grants less than the owner asked for: the
+	// acknowledged lifetime is what counts
+	{Attack: "policy-grants-less", Clock: 1}, {Attack: "policy-grants-less", Clock: 600}, {Attack: "policy-grants-less", Clock: -1},
 	{Attack: "reregister-shorter", Clock: 1}, {Attack: "reregister-shorter", Clock: 1700}, {Attack: "reregister-longer", Clock: -1},
 	{Attack: "blob-resign", KeyRole: "att1"}, {Attack: "blob-resign", KeyRole: "owner2"}, {Attack: "blob-bitflip"},
 }
@@ -123,7 +126,7 @@ func (p *c07) Prepare(t *testing.T, tier string, seed uint64) {
 				pl := a
 				pl.Key, pl.Enc, pl.Chain = k.Name, uint8(e), 1+i%2
 				pl.Addrs = i
-				pl.Sql = strings.HasPrefix(a.Attack, "clock") || (strings.HasPrefix(a.Attack, "reregister") && i%2 == 0) || i%4 == 0
+				pl.Sql = strings.HasPrefix(a.Attack, "clock") || ((strings.HasPrefix(a.Attack, "reregister") || strings.HasPrefix(a.Attack, "policy")) && i%2 == 0) || i%4 == 0
 				pl.Seed = seed*1_000_003 + uint64(i)*19 + 2
 				i++
 				plans = append(plans, pl)
@@ -323,6 +326,49 @@ func c07Run(env *Env, pl *C07Plan, collect map[int][]byte) {
 			return
 		}
 		o.Class = "to2-aborted"
+		return
+
+	case "policy-grants-less":
+		// d2's registration (made above) is untouched; register d1 again under a policy
+		rvn := s.Nodes["rv"]
+		const granted = 300
+		rvn.AcceptTTL = func(context.Context, fdo.Voucher, uint32) (uint32, error) { return granted, nil }
+		rvn.Rebuild()
+		time.Sleep(7 * time.Second)
+		reg2 := time.Now()
+		c2 := &fdo.TO0Client{Vouchers: on.Store, OwnerKeys: on.Store, TTL: ttl}
+		got, err := c2.RegisterBlob(ctx, s.Transport("owner1", "rv"), d1.Cred.GUID, addrs)
+		if err != nil {
+			setupFail("TO0-under-policy", err)
+			return
+		}
+		o.Nontrivial = true
+		o.Fault("ttl-policy-grants-less")
+		if got != granted {
+			o.Violate("C07", "expiry", "acknowledged-ttl", "policy granted %d s, AcceptOwner acknowledged %d s", granted, got)
+		}
+		exp2 := reg2.Add(time.Duration(got) * time.Second)
+		time.Sleep(time.Until(exp2.Add(time.Duration(pl.Clock) * time.Second)))
+		_, err = s.TO1(ctx, d1, "rv")
+		served := false
+		for _, ev := range s.Net.Log {
+			if ev.Phase == "resp" && ev.RespType == 33 {
+				served = true
+			}
+		}
+		o.Sample = map[string]any{"acknowledged_ttl": got, "clock_rel_expiry_s": pl.Clock, "served": served, "err": fmt.Sprint(err)}
+		switch {
+		case pl.Clock < 0 && (!served || err != nil):
+			o.Class = "REFUSED-BEFORE-EXPIRY"
+			o.Violate("C07", "expiry", "early|"+pl.Attack, "blob refused %ds before the acknowledged expiry (ttl %d): %v", -pl.Clock, got, err)
+		case pl.Clock > 0 && (served || err == nil):
+			o.Class = "SERVED-AFTER-EXPIRY"
+			o.Violate("C07", "expiry", "late|"+pl.Attack, "blob served %ds after the acknowledged expiry (granted ttl %d, requested %d)", pl.Clock, got, ttl)
+		case pl.Clock < 0:
+			o.Class = "served-before-expiry"
+		default:
+			o.Class = "refused-after-expiry"
+		}
 		return
 
 	case "reregister-shorter", "reregister-longer":
